@@ -196,6 +196,7 @@ type c05Sched struct {
 	meet      chan struct{}
 	enabled   bool
 	seed      uint64
+	late      bool // set-up continues after the instance has served its first request: one more middleware is installed then
 }
 
 // perturb injects seeded yields / short sleeps / a pairwise rendezvous between
@@ -360,6 +361,15 @@ func buildC05(s *c05Sched) *flamego.Flame {
 		s.perturb(v.Tok, 1)
 		r.JSON(201, map[string]string{"tok": c.Param("tok"), "inj": v.Tok, "route": c.Param("route")})
 	})
+	if s.late {
+		// an application that goes on being assembled after it has answered a request (a health probe during start-up):
+		// one request is served, then one more middleware is installed - all of it before the concurrent phase begins
+		was := s.enabled
+		s.enabled = false
+		_ = c05Serve(f, c05Req{Kind: "static", Tok: "warmup-probe", Method: "GET", Path: "/static/ping"})
+		s.enabled = was
+		f.Use(func(c flamego.Context) { c.Next() })
+	}
 	return f
 }
 
@@ -443,7 +453,8 @@ func runC05Round(w *core.W, c *c05Round, st *c05Stats, salt uint64) bool {
 		reqs[i] = c05MakeReq(k, tok, rng)
 	}
 	// serial twin first
-	twin := buildC05(&c05Sched{})
+	late := c.Round%4 == 2
+	twin := buildC05(&c05Sched{late: late})
 	want := make([]c05Resp, total)
 	for i, rq := range reqs {
 		want[i] = c05Serve(twin, rq)
@@ -461,7 +472,7 @@ func runC05Round(w *core.W, c *c05Round, st *c05Stats, salt uint64) bool {
 		if i >= c.Goroutines && i%32 != 0 {
 			continue
 		}
-		alone := c05Serve(buildC05(&c05Sched{}), rq)
+		alone := c05Serve(buildC05(&c05Sched{late: late}), rq)
 		w.Count("compared-with-a-fresh-instance")
 		if alone.status != want[i].status || alone.body != want[i].body || alone.ctype != want[i].ctype {
 			w.Violate("isolation", c, fmt.Sprintf("%s %s: the response on an instance that has served other requests before (serially) differs from the response of the same request served alone on a fresh instance\n after others: %d %q %q\n alone:        %d %q %q", rq.Method, rq.Path, want[i].status, want[i].body, want[i].ctype, alone.status, alone.body, alone.ctype))
@@ -469,7 +480,10 @@ func runC05Round(w *core.W, c *c05Round, st *c05Stats, salt uint64) bool {
 		}
 	}
 	// cold instance, concurrent
-	sched := &c05Sched{enabled: true, meet: make(chan struct{}), seed: uint64(w.R.Seed) + salt}
+	sched := &c05Sched{enabled: true, meet: make(chan struct{}), seed: uint64(w.R.Seed) + salt, late: late}
+	if late {
+		w.Count("instances-whose-set-up-continued-after-the-first-request")
+	}
 	if c.Round%2 == 1 {
 		// collecting (and formatting) log lines serializes the requests early in the chain and staggers the cold wave;
 		// every other round logs to io.Discard so that requests reach the router truly at once
